@@ -41,7 +41,8 @@ func NewSession(c *Client, state SMState) (*Session, error) {
 	}
 
 	if s.err != nil {
-		return nil, NewConnError(s.err, true)
+		// The stream broke before the server told us anything: not a reason to give up for good.
+		return nil, NewConnError(s.err, false)
 	}
 
 	if !c.transport.IsSecure() {
